@@ -372,9 +372,10 @@ def rule_headerpred(ctx):
         return
     # the caller hands the residual slice itself as `header` and adds the prediction to the residual at the same position
     dec = col.fn("jxl_color::icc::decode::decode_icc")
-    sites = [t for b, t in dec.calls() if callee(t) and callee(t)["fn"].endswith("predict_header")] if dec else []
+    fam = [dec] + [g for g in col.fn_list if g.path.startswith(dec.path + "::{closure")] if dec else []
+    sites = [t for g in fam for b, t in g.calls() if callee(t) and callee(t)["fn"].endswith("predict_header")]
     if len(sites) != 1:
-        ctx.anchor_missing(rid, "the single call of predict_header in decode_icc (found %d)" % len(sites))
+        ctx.anchor_missing(rid, "the single call of predict_header in decode_icc or one of its closures (found %d)" % len(sites))
         return
     ctx.seen(dec)
 
